@@ -39,6 +39,7 @@ pub fn mutant_universe(mut u: Universe, seed: u64) -> Universe {
     let n_subjects = u.subjects.len();
     vmodel::mutate::add_mutants(&mut u, &mut src, 2, 2);
     vmodel::mutate::add_align_pairs(&mut u, 12);
+    vmodel::mutate::add_twins(&mut u, &mut src, 6);
     // one dedicated pair per layout-only mutant below `Bound`, whose alignment hash does not recurse (O9)
     let layout_mutants: Vec<(usize, usize)> = u
         .adts
